@@ -43,6 +43,10 @@ CHECKS = {
          "Exploration, exhaustive up to depth 2 (strided sample in quick when large): every admissible only/except subset, renaming (swaps, chains, prefix-like targets) and prefix; the root frame after the import must hold exactly the model's names and values, identically on three fresh interpreters.",
          "Trusted: the 20-line algebra model; the bare interpreter's root frame is empty before the import.",
          "DESIGN.md §5 C12"),
+ "C13": ("random library/program pairs (registered sources and .sld files) against a reference module system (one instance per library, library environment = imports + own definitions); attribution experiment for per-import instantiation",
+         "Exploration: 1500 (thorough 25000) generated library sets with renamed exports, unexported helpers, internal state, cross-library use, and importing programs that collide with, redefine and probe library names and observe state through several import paths.",
+         "Trusted: refeval.rs module model. Exported variables are constants or procedures (mutation of exported bindings is outside the property).",
+         "DESIGN.md §5 C13"),
  "C14": ("exhaustive small-scope enumeration of dependency graphs x node statuses x import histories, libraries as files and as registered sources; oracle: graph reachability/cycle model + self-differential against a fresh interpreter; watchdog for termination",
          "Exploration, exhaustive on 1-2 libraries (3 sampled in thorough): every graph, every status assignment, every history of <= 3 attempts; each attempt's outcome class must be admitted by the graph, equal the outcome on a fresh interpreter and terminate; libraries must be found relative to the program directory.",
          "Trusted: the reachability model; temp directories under the system temp dir are created and removed by the run.",
